@@ -608,9 +608,9 @@ def run_chunks(ctx, exe, cases, tag, nproc=None):
 
 def iter_targeted_cases(ctx, exe, level):
     """level 'core': the pattern sequences only (always run); 'full': every short sequence + double preemption"""
-    vids = (40,) if level == "core" else (40, 43)
-    setups = ("e2", "e1") if level == "core" else ("e2", "e1", "e2b")
-    aops = ((1, 0), (3, 1)) if level == "core" else ((1, 0), (2, 0), (3, 1))
+    vids = (40,)
+    setups = ("e2", "e1")
+    aops = ((1, 0), (3, 1))
     akeys = (0,) if level == "core" else (0, 1, 2)
     bseqs = ITER_CORE_B if level == "core" else iter_b_sequences()
     # length (scheduler steps) of the inserting thread up to the end of its operation, measured on the real code
@@ -640,7 +640,7 @@ def iter_targeted_cases(ctx, exe, level):
                         for s0 in range(max(0, base - 1), end + 1):
                             cases.append({"id": "it_%s_%d_%s_%d_%d_%d_%d" % (level, vid, sn, code, ka, bi, s0), "cfg": [vid, 0, 20000],
                                           "threads": [ta, b], "sched": [0] * s0 + [1] * 400})
-                    if level == "full" and vid == 40:
+                    if level == "full" and code == 1 and ka == 0:
                         # a second preemption: the other thread is stopped after m of its steps, the inserter runs d steps
                         for bi, b in enumerate(ITER_CORE_B):
                             for s0 in range(max(0, base - 1), end + 1, 2):
